@@ -887,7 +887,7 @@ fn do_to_dot<W: Write>(
                         writeln!(
                             output,
                             r#"{indentation}_{subdfa_identifiers_prefix}{} -> _{identifiers_prefix}{} [style="dashed"];"#,
-                            subdfa_accepting_state,
+                            subdfa_accepting_state + array_start,
                             to + array_start
                         )?;
                     }
